@@ -90,7 +90,33 @@ def run(chk, quick_n=1500, thorough_n=40000):
             continue
         if mr != ir:
             chk.broken("correspondence: model fs_fetch after put differs from the real directory + FilesystemTransport", full)
+    safe_names(chk)
     return plain
+
+
+def safe_names(chk):
+    """C10_safe_names_are_plain on the real code: raw names over the unreserved characters and '/', with '.' and '..'
+    components and repeated slashes; TargetName::new resolves them (harness p = 8), the resolved name - alone and behind a
+    hex digest - must be plain for the model, and a file put under it must be found again by the real transport"""
+    parts = ["a", "b.c", "..", ".", "", "x-y_z~", "..a", "a..", "...", "0", "A.B"]
+    raws = []
+    for _ in range(300 if chk.tier == "quick" else 5000):
+        raws.append("/".join(chk.rng.choice(parts) for _ in range(chk.rng.randint(1, 5))))
+    raws = [r for r in dict.fromkeys(raws) if r and not r.startswith("/")]
+    res = C.run_impl([[8, 0, C.enc(r)] for r in raws])
+    ok = [(r, C.b2s(x[1])) for r, x in zip(raws, res) if isinstance(x, list) and x and x[0] == 0]
+    hexd = "0123456789abcdef" * 4
+    files = [n for _, n in ok] + [hexd + "." + n for _, n in ok]
+    pm = is_plain(files)
+    fs = C.run_impl([[21, 1, C.enc(f), C.enc("safe " + f)] for f in files])
+    for f, got in zip(files, fs):
+        chk.count("safe-name-roundtrip")
+        full = {"what": "a resolved target name over the unreserved characters and '/', put and fetched", "file": f,
+                "model_plain": pm[f], "impl": str(got)[:200]}
+        if not pm[f]:
+            chk.broken("C10_safe_names_are_plain: the model does not call the resolved safe name %r plain" % f, full)
+        elif got != [0, C.enc("safe " + f)]:
+            chk.violation("a file put under the resolved safe name %r is not found again through FilesystemTransport" % f, full)
 
 
 def is_plain(names_list):
